@@ -39,6 +39,8 @@ var targets = []string{
 	"github.com/gotd/td/telegram", "github.com/gotd/td/telegram/internal/manager", "github.com/gotd/td/telegram/dcs",
 	"github.com/gotd/td/telegram/updates", "github.com/gotd/td/telegram/uploader", "github.com/gotd/td/telegram/downloader",
 	"github.com/gotd/td/session", "github.com/gotd/td/tgtest", "github.com/gotd/td/tgtest/cluster",
+	"github.com/gotd/td/tgerr", "github.com/gotd/td/tgtest/services", "github.com/gotd/td/tgtest/services/config",
+	"github.com/gotd/td/tgtest/services/file", "github.com/gotd/td/tgtest/services/messages", "github.com/gotd/td/telegram/internal/version",
 	"golang.org/x/sync/errgroup", "golang.org/x/sync/singleflight", "github.com/cenkalti/backoff/v4",
 }
 
